@@ -69,12 +69,25 @@ def mk(zone, u, prov):
     return x
 
 
+# The operators evaluated directly inside functions that carry the NAMES of datetime-API methods: pendulum decides how '+' behaves by looking at the name
+# of the calling frame (a hook for the native astimezone()); a user's function of the same name must get the same arithmetic as everybody else.
+CALLERS = {}
+for _nm in ("astimezone", "utctimetuple", "fromutc", "utcoffset", "timetuple", "timestamp", "in_timezone", "convert", "normalize", "localize"):
+    _ns = {}
+    exec(f"def {_nm}(x, td, op):\n    if op == '+td':\n        return x + td\n    if op == '-td':\n        return x - td\n    return td + x\n", _ns)
+    CALLERS[_nm] = _ns[_nm]
+CALLER_NAMES = sorted(CALLERS)
+
+
 def apply(x, a, op):
     if op == "add":
         return x.add(**a), 1
     if op == "subtract":
         return x.subtract(**a), -1
     td = D.timedelta(**a)
+    k = (abs(total(a)) + x.microsecond + x.second) % (2 * len(CALLER_NAMES))
+    if k < len(CALLER_NAMES):
+        return CALLERS[CALLER_NAMES[k]](x, td, op), (-1 if op == "-td" else 1)
     if op == "+td":
         return x + td, 1
     if op == "-td":
@@ -184,6 +197,7 @@ class FixedOffset(Sub):
 class EveryYearFebruary(Sub):
     name = "every_year_february"
     kind = "enum"
+    case_timeout = 900.0
     ambient = True
     n = {"quick": 0, "thorough": 0}
     shards = {"quick": 4, "thorough": 8}
